@@ -96,6 +96,9 @@ class Source(PartHandler):
         super()._pass_part_downstream()
         if self._output == None:  # Part was passed downstream.
             self._produced_parts += 1
+            # The budget may have been lowered while this Part was being handed
+            # over; it cannot be lower than the number of supplied Parts.
+            self._max_produced_parts = max(self._max_produced_parts, self._produced_parts)
             self.add_cost('supplied_part', supplied_part_value)
             self._cost_of_produced_parts += supplied_part_value
             self._env.add_datapoint('supplied_new_part', self.name, (self._env.now, supplied_part_id))
